@@ -35,3 +35,11 @@ pub open spec fn clean_exit(w: ExitWitness) -> bool {
     &&& w.draw_faults == 0
     &&& w.record_faults == 0
 }
+
+/// C15 at the controller: one lock of a chain's trace mutex that flushed what it found.  `a` is the value the
+/// guard was handed, `b` the value it left behind: the storage (if the chain has one) was flushed successfully
+/// and nothing was taken away or replaced (a flush must not lose the trace it flushes).
+pub open spec fn flushed_under_lock<CS: ChainStorage>(a: Option<CS>, b: Option<CS>) -> bool {
+    &&& b == a
+    &&& a is Some ==> a->Some_0.flush_ok()
+}
